@@ -10,7 +10,7 @@ import contextlib
 from . import core
 
 
-class CallTimeout(Exception):
+class CallTimeout(BaseException):
     pass
 
 
